@@ -297,6 +297,44 @@ def h_concrete_seeded(ctx, case):
     elif case == 'sample_func':
         A = teneva.func_int(teneva.rand([4, 4], 1, seed=6))
         call = lambda: teneva.sample_func(A, seed=7)
+    elif case == 'als_func_repeat':
+        # deterministic routine called twice with the very same objects (unregularised branch included)
+        rng = np.random.default_rng(5)
+        X = rng.uniform(-1, 1, size=(30, 2))
+        y = np.sin(X[:, 0]) + X[:, 1] ** 2
+        y0 = y.copy()
+        A0 = teneva.rand([4, 4], 2, seed=3)
+        ok = True
+        for lamb in (None, 1e-3):
+            a = teneva.als_func(X, y, A0, nswp=2, lamb=lamb)
+            b = teneva.als_func(X, y, A0, nswp=2, lamb=lamb)
+            ok = ok and _identical(ctx, _flat(a), _flat(b))
+        I = teneva.sample_lhs([4, 4, 4], 40, seed=1)
+        yy = rng.normal(size=40)
+        for kw in ({}, {'lamb': None}, {'lamb': None, 'w': np.ones(40)}):
+            a = teneva.als(I, yy, teneva.rand([4, 4, 4], 2, seed=2), nswp=2, **kw)
+            b = teneva.als(I, yy, teneva.rand([4, 4, 4], 2, seed=2), nswp=2, **kw)
+            ok = ok and _identical(ctx, _flat(a), _flat(b))
+        ctx.claim('repeated_call_identical', bool(ok) and np.array_equal(y, y0))
+        return
+    elif case == 'lhs_after_history':
+        # shapes with a mode of size 1 after other calls have used (and released) memory blocks of the
+        # same size: the result depends on the seed only (nothing is read from recycled memory)
+        ok = True
+        for n, m in (([1, 3], 3), ([2, 1, 3], 4), ([1, 1], 2)):
+            ref = None
+            for rep in range(6):
+                for _ in range(20):                       # blocks of the result's byte size, filled and dropped
+                    junk = np.full((m, len(n)), 7 + rep, dtype=int)
+                    del junk
+                I = teneva.sample_lhs(n, m, seed=11)
+                ok = ok and all(0 <= int(I[t, k]) < n[k] for t in range(m) for k in range(len(n)))
+                ref = I.copy() if ref is None else ref
+                ok = ok and np.array_equal(I, ref)
+            J, idx, idm = teneva.sample_tt(n, 2, seed=4)
+            ok = ok and all(0 <= int(J[t, k]) < n[k] for t in range(J.shape[0]) for k in range(len(n)))
+        ctx.claim('seeded_result_independent_of_memory_history', bool(ok))
+        return
     elif case == 'sample_func_history':
         # the same list object with other contents / equal tensors in other objects: only the
         # values of the argument count, not its identity or what was passed before
@@ -328,7 +366,8 @@ def instances(tier):
         out.append({'func': 'h_symbolic_seed', 'params': {'name': name}})
     out.append({'func': 'h_anova_history', 'params': {}})
     out.append({'func': 'h_restart_generator', 'params': {}, 'opts': {'symbolic_signs': False}})
-    for case in ('cross_act_0', 'cross_act_1', 'cross_act_2', 'cross_act_3', 'core_qr_rand', 'sample_func', 'sample_func_history'):
+    for case in ('cross_act_0', 'cross_act_1', 'cross_act_2', 'cross_act_3', 'core_qr_rand', 'sample_func', 'sample_func_history',
+                 'als_func_repeat', 'lhs_after_history'):
         out.append({'func': 'h_concrete_seeded', 'params': {'case': case}, 'opts': {'concrete_only': True}})
     for name in ['rand', 'rand_norm', 'rand_stab', 'sample', 'sample_lhs', 'sample_rand', 'sample_rand_poi',
                  'sample_tt', 'sample_square', 'sample_square_dup', 'anova']:
